@@ -1309,12 +1309,13 @@ Qed.
 
 Lemma sinv_recv st c st' : sinv st -> sstep D ST ns st (SL_recv c) = Some st' -> sinv st'.
 Proof.
-  intros [R C S O I Q X Dn] H. simpl in H.
+  intros [R C S O I Q X Dn] H. unfold sstep in H.
   destruct (s_inbox st c) as [[[r enc] p]|] eqn:EI; [|discriminate].
   destruct (I c r enc p EI) as [Io [Iw [Iann Ifaith]]].
   set (k := g_calls (s_g st) c) in *.
   destruct (call_recv ST (k_ext k) (g_cells (s_g st)) (k_st k) r) as [[[sto cs] oq]|] eqn:E.
-  2:{ simpl in H. fold k in H. rewrite E in H. discriminate. }
+  2:{ assert (HN : gstep ST (s_g st) (GL_resp c r) = None) by (simpl; fold k; now rewrite E).
+      rewrite HN in H. discriminate. }
   pose proof (reach_call_ok _ _ _ R c) as K0. fold k in K0.
   pose proof (recv_no_snap _ _ _ _ _ _ _ _ E) as NS.
   set (cells' := fst (apply_store (s_g st) sto)).
@@ -1328,7 +1329,8 @@ Proof.
   assert (NR : new_request (s_g st) g' c = oq).
   { unfold new_request, last_sent, g'. simpl. rewrite upd_same. fold k. unfold k'. simpl.
     destruct oq as [q|]; simpl.
-    - destruct (Nat.eqb _ _) eqn:EE; [apply Nat.eqb_eq in EE; lia|reflexivity].
+    - destruct (length (k_sent k)) as [|n0] eqn:EL; [reflexivity|].
+      destruct (Nat.eqb (Datatypes.S n0) n0) eqn:EE; [apply Nat.eqb_eq in EE; lia|reflexivity].
     - now rewrite Nat.eqb_refl. }
   rewrite NR.
   (* the cells after the step are safe *)
@@ -1337,7 +1339,7 @@ Proof.
     unfold upd. destruct (Nat.eqb s s0) eqn:EE; [|apply C]. apply Nat.eqb_eq in EE. subst s0.
     pose proof (recv_store_target _ _ _ _ _ _ _ _ E) as TG.
     destruct (recv_store _ _ _ _ _ _ _ _ _ E) as [_ [[Hc|[a [-> Hcs]]] _]].
-    - destruct (Iann u Hc) as [s' [T' Hok]]. fold k in T'. rewrite TG in T'. inversion T'; subst. exact Hok.
+    - destruct (Iann u Hc) as [s' [T' Hok]]. fold k in T'. rewrite TG in T'. inversion T' as [Es]. exact Hok.
     - unfold call_ok in K0. destruct (k_x k) as [a0|] eqn:Hx.
       + assert (a = a0) as -> by (eapply exec_log_state_args; eassumption).
         assert (SN : snap_of (k_st k) = Some u) by (destruct Hcs as [-> | ->]; reflexivity).
@@ -1392,10 +1394,12 @@ Qed.
 
 Lemma sinit_sinv nodes : sinv (sinit init nodes).
 Proof.
-  constructor; simpl; try discriminate.
+  constructor; simpl.
   - exists []. reflexivity.
   - exact init_ok.
   - intros c a q m H. discriminate.
+  - intros c q H. discriminate.
+  - intros c r enc p H. discriminate.
   - auto.
   - intros c H. exfalso. now apply H.
   - intros c a u pg nr cl H. discriminate.
@@ -1428,3 +1432,234 @@ Lemma srun_greach nodes ls st :
   srun D ST ns (sinit init nodes) ls = Some st -> greach ST init (s_g st).
 Proof. intros HR. now destruct (srun_sinv ls _ _ (sinit_sinv nodes) HR). Qed.
 End Spec.
+
+(* ---------------------------------------------------------------------------------- *)
+(* the batch loop, on reachable states                                                   *)
+(* ---------------------------------------------------------------------------------- *)
+
+Lemma batch_resend ST init st c :
+  greach ST init st ->
+  let k := g_calls st c in
+  k_x k = None -> k_st k <> CS_idle ->
+  exists b, forall q om, In (q, om) (k_sent k) ->
+    om = None /\ (q = Q_batch (mk_batch_frame ST b) \/
+                  exists p id, q = Q_prepare (s_text (ST p)) /\ find_prepared ST (ba_items b) id = Some p).
+Proof.
+  intros HR k Hx Hi. pose proof (reach_call_ok _ _ _ HR c) as H. unfold call_ok in H. fold k in H.
+  rewrite Hx in H. destruct H as [H|[b H]].
+  - rewrite H in Hi. exfalso. now apply Hi.
+  - exists b. eapply batch_log_frames. eassumption.
+Qed.
+
+Lemma batch_id_changed ST init st c id pm rest :
+  greach ST init st ->
+  let k := g_calls st c in
+  k_x k = None -> k_rcvd k = RPrepared id pm :: rest ->
+  exists b,
+  (exists p sent', k_st k = CS_batch b /\ id = s_id (ST p) /\
+                   k_sent k = (Q_batch (mk_batch_frame ST b), None) :: sent') \/
+  (k_st k = CS_done (O_err E_IdChanged) /\
+   exists p rest', id <> s_id (ST p) /\
+     forall ls st', grun ST st ls = Some st' ->
+       k_sent (g_calls st' c) = (Q_prepare (s_text (ST p)), None) :: rest') \/
+  k_st k = CS_done O_norows.
+Proof.
+  intros HR k Hx Hr. pose proof (reach_call_ok _ _ _ HR c) as H. unfold call_ok in H. fold k in H.
+  rewrite Hx in H. destruct H as [H|[b H]].
+  - rewrite H in Hr. discriminate.
+  - exists b. destruct (batch_id_changed_log _ _ _ _ _ _ _ _ _ H Hr) as [[p [s' [A [B C]]]]|[[A [p [r' [B C]]]]|A]].
+    + left. eauto.
+    + right; left. split; [assumption|]. exists p, r'. split; [assumption|].
+      intros ls st' Hrun. fold k in A. rewrite (done_final_run _ _ _ _ _ _ Hrun A). exact B.
+    + right; right. assumption.
+Qed.
+
+(* ---------------------------------------------------------------------------------- *)
+(* the acceptors: an accepted trace IS a run of the system, with the observed responses  *)
+(* delivered, the observed requests sent and the observed outcome reached                *)
+(* ---------------------------------------------------------------------------------- *)
+
+Lemma g_tick_run ST st c : exists ls, grun ST st ls = Some (g_tick_if_needed ST st c).
+Proof.
+  unfold g_tick_if_needed. destruct (k_st (g_calls st c)); try (exists []; reflexivity).
+  destruct (gstep ST st (GL_tick c)) as [st'|] eqn:E; [|exists []; reflexivity].
+  exists [GL_tick c]. cbn [grun]. now rewrite E.
+Qed.
+
+(* what the steps taken inside [g_feed] do to the log of call c *)
+Definition extends (k k' : crec) (r : resp) : Prop :=
+  k_x k' = k_x k /\ k_ext k' = k_ext k /\ k_rcvd k' = r :: k_rcvd k /\
+  (forall e, In e (k_sent k) -> In e (k_sent k')).
+
+Lemma gstep_resp_extends ST st c r st' :
+  gstep ST st (GL_resp c r) = Some st' -> extends (g_calls st c) (g_calls st' c) r.
+Proof.
+  simpl. destruct (call_recv _ _ _ _ r) as [[[sto cs] oq]|]; [|discriminate].
+  destruct (apply_store st sto). intros H; inversion H; subst; simpl. rewrite upd_same. unfold extends; simpl.
+  repeat split; try reflexivity. intros e HI. destruct oq; [now right|assumption].
+Qed.
+
+Lemma g_tick_keeps ST st c :
+  let k := g_calls st c in let k' := g_calls (g_tick_if_needed ST st c) c in
+  k_x k' = k_x k /\ k_ext k' = k_ext k /\ k_rcvd k' = k_rcvd k /\ (forall e, In e (k_sent k) -> In e (k_sent k')).
+Proof.
+  cbv zeta. unfold g_tick_if_needed.
+  destruct (k_st (g_calls st c)) eqn:E; try (split; [|split; [|split]]; auto; fail).
+  destruct (gstep ST st (GL_tick c)) as [st'|] eqn:G; [|split; [|split; [|split]]; auto].
+  simpl in G. destruct (call_tick _ _ _ _) as [[cs q]|]; [|discriminate]. inversion G; subst; simpl.
+  rewrite upd_same; simpl. split; [|split; [|split]]; auto.
+Qed.
+
+Definition seen (k : crec) (x : xchg) : Prop :=
+  exists q om, In (q, om) (k_sent k) /\ request_eqb q (x_req x) = true.
+
+Lemma g_feed_sound ST : forall xs st c pos out st',
+  g_feed ST st c pos xs out = V_ok st' ->
+  (exists ls, grun ST st ls = Some st') /\
+  let k := g_calls st c in let k' := g_calls st' c in
+  k_x k' = k_x k /\ k_ext k' = k_ext k /\
+  k_rcvd k' = rev (map x_resp xs) ++ k_rcvd k /\
+  (forall e, In e (k_sent k) -> In e (k_sent k')) /\
+  Forall (seen k') xs /\
+  exists o, k_st k' = CS_done o /\ obs_out_eqb (obs_of_outcome o) out = true.
+Proof.
+  induction xs as [|x r IH]; intros st c pos out st' H; simpl in H.
+  - destruct (k_st (g_calls st c)) eqn:E; simpl in H; try discriminate H.
+    destruct (obs_out_eqb (obs_of_outcome o) out) eqn:EO; [|discriminate H]. inversion H; subst.
+    split; [exists []; reflexivity|]. cbv zeta. repeat split; auto. eauto.
+  - destruct (negb (waiting (k_st (g_calls st c)))); [discriminate H|].
+    destruct (last_sent st c) as [q|] eqn:LS; [|discriminate H].
+    destruct (request_eqb q (x_req x)) eqn:RQ; [|discriminate H].
+    destruct (gstep ST st (GL_resp c (x_resp x))) as [st1|] eqn:G; [|discriminate H].
+    destruct (IH _ _ _ _ _ H) as [[ls2 Hrun2] [A [B [C [Dd [F O]]]]]].
+    destruct (g_tick_run ST st1 c) as [ls1 Hrun1].
+    destruct (gstep_resp_extends _ _ _ _ _ G) as [E1 [E2 [E3 E4]]].
+    destruct (g_tick_keeps ST st1 c) as [T1 [T2 [T3 T4]]].
+    split.
+    + exists (GL_resp c (x_resp x) :: ls1 ++ ls2). cbn [grun]. rewrite G. rewrite grun_app, Hrun1. exact Hrun2.
+    + cbv zeta. split; [congruence|]. split; [congruence|]. split.
+      * rewrite C, T3, E3. simpl. rewrite <- app_assoc. reflexivity.
+      * split; [auto|]. split; [|exact O].
+        constructor; [|exact F].
+        unfold last_sent in LS. destruct (k_sent (g_calls st c)) as [|[q0 om] rest] eqn:KS; [discriminate H|].
+        inversion LS; subst q0. exists q, om. split; [|exact RQ].
+        apply Dd, T4, E4. rewrite KS. now left.
+Qed.
+
+(* what an accepted client operation leaves in the final state *)
+Definition op_matches (st : gstate) (c : nat) (o : top) : Prop :=
+  let k := g_calls st c in
+  match o with
+  | TO_exec _ ext a xs out =>
+      k_x k = Some a /\ k_ext k = ext /\ k_rcvd k = rev (map x_resp xs) /\ Forall (seen k) xs /\
+      exists oc, k_st k = CS_done oc /\ obs_out_eqb (obs_of_outcome oc) out = true
+  | TO_batch _ ext b xs out =>
+      k_x k = None /\ k_ext k = ext /\ k_rcvd k = rev (map x_resp xs) /\ Forall (seen k) xs /\
+      exists oc, k_st k = CS_done oc /\ obs_out_eqb (obs_of_outcome oc) out = true
+  | TO_event _ _ => True
+  end.
+
+Lemma g_accept_op_sound ST st c o st' :
+  g_accept_op ST st c o = V_ok st' ->
+  (exists ls, grun ST st ls = Some st') /\ op_matches st' c o.
+Proof.
+  destruct o as [nd ext a xs out|nd ext b xs out|nd e]; simpl.
+  - destruct (k_st (g_calls st c)) eqn:E; try discriminate.
+    set (st1 := mkG (g_cells st) (upd (g_calls st) c _) (g_ann st)).
+    intros H. destruct (g_feed_sound ST _ _ _ _ _ _ H) as [[ls Hrun] [A [B [C [Dd [F O]]]]]].
+    split.
+    + exists (GL_exec c ext a :: ls). simpl. rewrite E. exact Hrun.
+    + unfold op_matches. unfold st1 in *. simpl in *. rewrite upd_same in *. simpl in *.
+      rewrite app_nil_r in C. auto.
+  - destruct (k_st (g_calls st c)) eqn:E; try discriminate.
+    set (st1 := mkG (g_cells st) (upd (g_calls st) c _) (g_ann st)).
+    intros H. destruct (g_feed_sound ST _ _ _ _ _ _ H) as [[ls Hrun] [A [B [C [Dd [F O]]]]]].
+    split.
+    + exists (GL_batch c ext b :: ls). simpl. rewrite E. exact Hrun.
+    + unfold op_matches. unfold st1 in *. simpl in *. rewrite upd_same in *. simpl in *.
+      rewrite app_nil_r in C. auto.
+  - intros H; inversion H; subst. split; [exists []; reflexivity|exact I].
+Qed.
+
+Lemma op_matches_done st c o : op_matches st c o ->
+  match o with TO_event _ _ => True | _ => exists oc, k_st (g_calls st c) = CS_done oc end.
+Proof. destruct o; simpl; try tauto; intros [_ [_ [_ [_ [oc [H _]]]]]]; eauto. Qed.
+
+Lemma op_matches_stable ST st ls st' c o :
+  grun ST st ls = Some st' -> op_matches st c o -> op_matches st' c o.
+Proof.
+  intros Hrun HM. pose proof (op_matches_done _ _ _ HM) as Hd.
+  destruct o; try exact I; destruct Hd as [oc Hd];
+    unfold op_matches in *; rewrite (done_final_run _ _ _ _ _ _ Hrun Hd); exact HM.
+Qed.
+
+(* C14_accept_sound *)
+Lemma g_accept_sound ST : forall tr st c c' st',
+  g_accept ST st c tr = (c', V_ok st') ->
+  (exists ls, grun ST st ls = Some st') /\
+  forall i o, nth_error tr i = Some o -> op_matches st' (c + i) o.
+Proof.
+  induction tr as [|o r IH]; intros st c c' st' H; simpl in H.
+  - inversion H; subst. split; [exists []; reflexivity|]. intros [|i] o HH; discriminate.
+  - destruct (g_accept_op ST st c o) as [st1| | | |] eqn:E; try (inversion H; fail).
+    destruct (g_accept_op_sound _ _ _ _ _ E) as [[ls1 Hrun1] HM].
+    destruct (IH _ _ _ _ H) as [[ls2 Hrun2] HR].
+    split.
+    + exists (ls1 ++ ls2). rewrite grun_app, Hrun1. exact Hrun2.
+    + intros [|i] o' Hn; simpl in Hn.
+      * inversion Hn; subst o'. rewrite Nat.add_0_r. eapply op_matches_stable; eassumption.
+      * replace (c + Datatypes.S i)%nat with (Datatypes.S c + i)%nat by lia. now apply HR.
+Qed.
+
+(* the specification acceptor builds a run of the specification system *)
+Lemma s_tick_run D ST ns st c : exists ls, srun D ST ns st ls = Some (s_tick_if_needed D ST ns st c).
+Proof.
+  unfold s_tick_if_needed. destruct (k_st (g_calls (s_g st) c)); try (exists []; reflexivity).
+  destruct (sstep D ST ns st (SL_tick c)) as [st'|] eqn:E; [|exists []; reflexivity].
+  exists [SL_tick c]. cbn [srun]. now rewrite E.
+Qed.
+
+Lemma srun_app D ST ns st ls1 ls2 :
+  srun D ST ns st (ls1 ++ ls2) = match srun D ST ns st ls1 with Some st' => srun D ST ns st' ls2 | None => None end.
+Proof.
+  revert st; induction ls1 as [|l r IH]; intros st; simpl; [reflexivity|].
+  destruct (sstep D ST ns st l); [apply IH|reflexivity].
+Qed.
+
+Lemma s_feed_run D ST ns : forall xs st c pos out st',
+  s_feed D ST ns st c pos xs out = V_ok st' -> exists ls, srun D ST ns st ls = Some st'.
+Proof.
+  induction xs as [|x r IH]; intros st c pos out st' H; simpl in H.
+  - destruct (k_st (g_calls (s_g st) c)); simpl in H; try discriminate H.
+    destruct (obs_out_eqb _ _); [|discriminate H]. inversion H; subst. exists []; reflexivity.
+  - destruct (s_out st c) as [q|]; [|discriminate H].
+    destruct (request_eqb q (x_req x)); [|discriminate H].
+    destruct (sstep D ST ns st (SL_serve c (x_pay x))) as [st1|] eqn:E1; [|discriminate H].
+    destruct (s_inbox st1 c) as [[[rs enc] p]|]; [|discriminate H].
+    destruct (_ && _); [|discriminate H].
+    destruct (sstep D ST ns st1 (SL_recv c)) as [st2|] eqn:E2; [|discriminate H].
+    destruct (IH _ _ _ _ _ H) as [ls3 H3]. destruct (s_tick_run D ST ns st2 c) as [ls2 H2].
+    exists (SL_serve c (x_pay x) :: SL_recv c :: ls2 ++ ls3). cbn [srun]. rewrite E1, E2, srun_app, H2. exact H3.
+Qed.
+
+Lemma s_accept_sound D ST ns : forall tr st c c' st',
+  s_accept D ST ns st c tr = (c', V_ok st') -> exists ls, srun D ST ns st ls = Some st'.
+Proof.
+  induction tr as [|o r IH]; intros st c c' st' H; simpl in H.
+  - inversion H; subst. exists []; reflexivity.
+  - destruct (s_accept_op D ST ns st c o) as [st1| | | |] eqn:E; try (inversion H; fail).
+    destruct (IH _ _ _ _ H) as [ls2 H2].
+    assert (exists ls1, srun D ST ns st ls1 = Some st1) as [ls1 H1].
+    { destruct o as [nd ext a xs out|nd ext b xs out|nd e]; simpl in E.
+      - destruct (negb _); [discriminate H|].
+        destruct (sstep D ST ns st (SL_exec c nd a)) as [s1|] eqn:E1; [|discriminate H].
+        destruct (s_feed_run _ _ _ _ _ _ _ _ _ E) as [ls Hl].
+        exists (SL_exec c nd a :: ls). cbn [srun]. now rewrite E1.
+      - destruct (negb _); [discriminate H|].
+        destruct (sstep D ST ns st (SL_batch c nd b)) as [s1|] eqn:E1; [|discriminate H].
+        destruct (s_feed_run _ _ _ _ _ _ _ _ _ E) as [ls Hl].
+        exists (SL_batch c nd b :: ls). cbn [srun]. now rewrite E1.
+      - destruct (sstep D ST ns st (SL_event nd e)) as [s1|] eqn:E1; [|discriminate H].
+        inversion E; subst. exists [SL_event nd e]. cbn [srun]. now rewrite E1. }
+    exists (ls1 ++ ls2). rewrite srun_app, H1. exact H2.
+Qed.
